@@ -6,20 +6,28 @@
 package main
 
 import (
+	"bytes"
 	"encoding/hex"
 	"fmt"
 	"strings"
 
 	"github.com/gopacket/gopacket"
 
+	"github.com/scionproto/scion/pkg/private/ctrl/path_mgmt/proto"
+	"github.com/scionproto/scion/pkg/private/util"
+	seg "github.com/scionproto/scion/pkg/segment"
 	"github.com/scionproto/scion/pkg/slayers"
+	"github.com/scionproto/scion/pkg/slayers/path"
 	"github.com/scionproto/scion/pkg/slayers/path/scion"
 	"github.com/scionproto/scion/private/path/combinator"
 	"github.com/scionproto/scion/router"
 	_ "github.com/scionproto/scion/router/underlayproviders/udpip"
 
+	"verifharness/netlib"
 	"verifharness/vlib"
 )
+
+type netlibNet = netlib.Net
 
 type pathCase struct {
 	src, dst int
@@ -72,6 +80,138 @@ func (w *world) paths(r *vlib.Rand) []pathCase {
 		}
 	}
 	return out
+}
+
+// recoverEdges finds, for a path returned by Combine, the list of (segment, type, shortcut, peer
+// entry) that explains it: the hop-field MACs of every path segment must be those of a registered
+// segment from the shortcut entry on (the first one possibly a peer entry).
+func (w *world) recoverEdges(pc pathCase) ([]combinator.VerifNetEdge, bool) {
+	type cand struct {
+		s *seg.PathSegment
+		t proto.PathSegType
+	}
+	var cands []cand
+	for _, s := range w.segsAt[pc.src] {
+		cands = append(cands, cand{s, proto.PathSegType_up})
+	}
+	for _, s := range w.coreSegs {
+		cands = append(cands, cand{s, proto.PathSegType_core})
+	}
+	for _, s := range w.segsAt[pc.dst] {
+		cands = append(cands, cand{s, proto.PathSegType_down})
+	}
+	d := pc.dec
+	var edges []combinator.VerifNetEdge
+	off := 0
+	for i := 0; i < d.NumINF; i++ {
+		n := int(d.PathMeta.SegLen[i])
+		hops := append([]path.HopField(nil), d.HopFields[off:off+n]...)
+		off += n
+		down := d.InfoFields[i].ConsDir
+		if !down {
+			for a, b := 0, len(hops)-1; a < b; a, b = a+1, b-1 {
+				hops[a], hops[b] = hops[b], hops[a]
+			}
+		}
+		found := false
+		for _, c := range cands {
+			if (c.t == proto.PathSegType_down) != down || util.TimeToSecs(c.s.Info.Timestamp) != d.InfoFields[i].Timestamp {
+				continue
+			}
+			sc := len(c.s.ASEntries) - n
+			if sc < 0 {
+				continue
+			}
+			okTail := true
+			for k := 1; k < n; k++ {
+				if c.s.ASEntries[sc+k].HopEntry.HopField.MAC != hops[k].Mac {
+					okTail = false
+				}
+			}
+			if !okTail {
+				continue
+			}
+			peer := -1
+			if c.s.ASEntries[sc].HopEntry.HopField.MAC == hops[0].Mac && !d.InfoFields[i].Peer {
+				peer = 0
+			} else if d.InfoFields[i].Peer {
+				for k, pe := range c.s.ASEntries[sc].PeerEntries {
+					if pe.HopField.MAC == hops[0].Mac {
+						peer = k + 1
+					}
+				}
+			}
+			if peer < 0 {
+				continue
+			}
+			edges = append(edges, combinator.VerifNetEdge{Segment: c.s, Type: c.t, Shortcut: sc, Peer: peer})
+			found = true
+			break
+		}
+		if !found {
+			return nil, false
+		}
+	}
+	return edges, true
+}
+
+func edgeWords(n *netlibNet, e combinator.VerifNetEdge) string {
+	var sb strings.Builder
+	peer := "-"
+	if e.Peer != 0 {
+		peer = fmt.Sprint(e.Peer - 1)
+	}
+	fmt.Fprintf(&sb, " %d %d %d %s %d %d %d", b2i(e.Type == proto.PathSegType_down), b2i(e.Type == proto.PathSegType_core),
+		e.Shortcut, peer, e.Segment.Info.SegmentID, util.TimeToSecs(e.Segment.Info.Timestamp), len(e.Segment.ASEntries))
+	for _, a := range e.Segment.ASEntries {
+		h := a.HopEntry.HopField
+		fmt.Fprintf(&sb, " %d %d %d %d %s %d", uint64(a.Local), h.ConsIngress, h.ConsEgress, h.ExpTime,
+			hex.EncodeToString(h.MAC[:]), len(a.PeerEntries))
+		for _, p := range a.PeerEntries {
+			fmt.Fprintf(&sb, " %d %d %d %s %d %d", p.HopField.ConsIngress, p.HopField.ConsEgress, p.HopField.ExpTime,
+				hex.EncodeToString(p.HopField.MAC[:]), uint64(p.Peer), p.PeerInterface)
+		}
+	}
+	return sb.String()
+}
+
+// pathOfLine ties the Lean transcription of pathSolution.Path (pathOf / pathIfaces) to the real one.
+func (g *engine) pathOfLine(pc pathCase) {
+	edges, ok := g.w.recoverEdges(pc)
+	if !ok {
+		g.e.Case("po-unexplained|"+pc.shape, "~po/unexplained", true)
+		return
+	}
+	res, _ := vlib.Safe(func() string {
+		p := combinator.VerifNetPathOf(edges)
+		if !bytes.Equal(p.SCIONPath.Raw, pc.p.SCIONPath.Raw) {
+			return "mismatch"
+		}
+		var rp scion.Raw
+		if err := rp.DecodeFromBytes(p.SCIONPath.Raw); err != nil {
+			return "undecodable"
+		}
+		dec, err := rp.ToDecoded()
+		if err != nil {
+			return "undecodable"
+		}
+		var sb strings.Builder
+		fmt.Fprintf(&sb, "ok %s | %d", flat(dec), len(p.Metadata.Interfaces))
+		for _, i := range p.Metadata.Interfaces {
+			fmt.Fprintf(&sb, " %d %d", uint64(i.IA), i.ID)
+		}
+		return sb.String()
+	})
+	if res == "mismatch" || res == "undecodable" || strings.HasPrefix(res, "PANIC") {
+		g.e.Case("po-"+res+"|"+pc.shape, "~po/"+res, true)
+		return
+	}
+	var sb strings.Builder
+	fmt.Fprintf(&sb, "po %d", len(edges))
+	for _, e := range edges {
+		sb.WriteString(edgeWords(g.w.net, e))
+	}
+	g.rn.op(sb.String(), res, "po/"+pc.shape)
 }
 
 func rev(s []string) []string {
@@ -561,6 +701,9 @@ func main() {
 			npaths++
 			switch prop {
 			case "C02", "C22":
+				if prop == "C02" {
+					g.pathOfLine(pc)
+				}
 				st, ok := g.c02(pc, prop)
 				if ok && prop == "C22" {
 					g.c03(pc, st, prop)
